@@ -48,6 +48,7 @@ type StepC struct {
 	Pre        bool   `json:"pre"`    // outcome of the step's precondition
 	HasPre     bool   `json:"haspre"`
 	Pres       []bool `json:"pres,omitempty"` // several preconditions, in this order (met / unmet); pre = all of them met
+	PreK       []int  `json:"prek,omitempty"` // how each of them is written (preKinds); decides pres when present
 	Sfail      bool   `json:"sfail"`          // node.setup fails (stdout file in a directory that does not exist)
 	Fails      int    `json:"fails"`          // the first Fails attempts fail; -1: every attempt fails
 	Out        bool   `json:"out,omitempty"`  // the step has an `output:` variable; the executor prints a few bytes
@@ -358,6 +359,33 @@ func driverExhausted() string {
 	return ""
 }
 
+// the ways a precondition is written: environment variables, and back-tick commands evaluated by the real
+// dag.EvalConditions (exit status 0 or not, output equal to the expected value or not).  A command that exits non-zero
+// is an evaluation error: the condition is unmet whatever it printed.
+var preKindsMet = []int{0, 2, 5}
+var preKindsUnmet = []int{1, 3, 4, 6, 7}
+
+func preCond(kind int) (dag.Condition, bool) {
+	switch kind {
+	case 0:
+		return dag.Condition{Condition: "$VERIF_PRE_MET", Expected: "1"}, true
+	case 2: // exit 0, output equal
+		return dag.Condition{Condition: "`echo 1`", Expected: "1"}, true
+	case 5: // exit 0, no output, none expected
+		return dag.Condition{Condition: "`true`", Expected: ""}, true
+	case 3: // exit 0, output differs
+		return dag.Condition{Condition: "`echo 0`", Expected: "1"}, false
+	case 4: // exit 1, no output, none expected (the shape of "`test -e FILE`" expected "")
+		return dag.Condition{Condition: "`false`", Expected: ""}, false
+	case 6: // exit 1 although the file is missing: test -e
+		return dag.Condition{Condition: "`test -e /proc/verif-no-such-file`", Expected: ""}, false
+	case 7: // exit 3, output equal to the expected value
+		return dag.Condition{Condition: fmt.Sprintf("`%s - preout 3 1`", os.Args[0]), Expected: "1"}, false
+	default:
+		return dag.Condition{Condition: "$VERIF_PRE_UNMET", Expected: "1"}, false
+	}
+}
+
 func runCase(c *Case, id int, logDir string) {
 	c.Events, c.Final, c.Err, c.Status, c.Hung, c.Note, c.HFinal, c.Terminated = nil, nil, false, 0, false, "", nil, false
 	if why := driverExhausted(); why != "" {
@@ -381,13 +409,24 @@ func runCase(c *Case, id int, logDir string) {
 			s.RepeatPolicy = dag.RepeatPolicy{Repeat: true, Interval: time.Duration(sc.RepeatIvlUs) * time.Microsecond}
 		}
 		s.SignalOnStop = sc.SigOnStop
-		if len(sc.Pres) > 0 {
+		if len(sc.PreK) > 0 {
+			all := true
+			c.Steps[i].Pres = nil
+			for _, kind := range sc.PreK {
+				cond, met := preCond(kind)
+				s.Preconditions = append(s.Preconditions, cond)
+				c.Steps[i].Pres = append(c.Steps[i].Pres, met)
+				all = all && met
+			}
+			c.Steps[i].HasPre, c.Steps[i].Pre = true, all
+		} else if len(sc.Pres) > 0 {
 			all := true
 			for _, met := range sc.Pres {
-				cond := dag.Condition{Condition: "$VERIF_PRE_MET", Expected: "1"}
+				kind := 0
 				if !met {
-					cond, all = dag.Condition{Condition: "$VERIF_PRE_UNMET", Expected: "1"}, false
+					kind, all = 1, false
 				}
+				cond, _ := preCond(kind)
 				s.Preconditions = append(s.Preconditions, cond)
 			}
 			c.Steps[i].HasPre, c.Steps[i].Pre = true, all
@@ -676,6 +715,22 @@ func randomCaseN(r *vh.Rng, n int, w weights, shuffle bool) Case {
 				}
 			}
 		}
+		if s.HasPre && r.Chance(1, 3) { // written as back-tick commands (evaluated by the real EvalConditions)
+			ps := s.Pres
+			if len(ps) == 0 {
+				ps = []bool{s.Pre}
+			}
+			for _, met := range ps {
+				if met {
+					s.PreK = append(s.PreK, preKindsMet[r.Below(len(preKindsMet))])
+				} else if r.Chance(1, 10) {
+					s.PreK = append(s.PreK, 7)
+				} else {
+					s.PreK = append(s.PreK, preKindsUnmet[r.Below(len(preKindsUnmet)-1)])
+				}
+			}
+			s.Pres = append([]bool{}, ps...)
+		}
 		if r.Chance(1, 40) {
 			s.Sfail = true
 		}
@@ -945,6 +1000,14 @@ func timeoutCases(r *vh.Rng, k int) []Case {
 		default:
 			steps = []StepC{hold([]int{}, d()), hold([]int{}, d()), hold([]int{0, 1}, d())}
 		}
+		if i%2 == 1 { // the step running at the deadline has retries left (some had a failed attempt before it)
+			for j := range steps {
+				steps[j].Retry, steps[j].Rlimit, steps[j].IntervalUs = true, 1+r.Below(3), 1000+r.Below(3)*1000
+				if r.Chance(1, 3) {
+					steps[j].Fails, steps[j].DurUs = 1, 2000+r.Below(3)*1000
+				}
+			}
+		}
 		c := Case{Steps: steps, Policy: "hold", Handlers: handlerSet(4|1|r.Below(16), r, 0), TimeoutUs: 3000 + r.Below(12)*1000}
 		prep(&c, r, "timeout")
 		out = append(out, c)
@@ -1038,8 +1101,18 @@ func main() {
 		fmt.Println("1")
 		return
 	}
+	if len(os.Args) > 4 && os.Args[2] == "preout" { // helper of preconditions: <self> - preout <exit code> <output>
+		var code int
+		fmt.Sscanf(os.Args[3], "%d", &code)
+		fmt.Println(os.Args[4])
+		os.Exit(code)
+	}
 	startEnv = os.Environ()
 	log.SetOutput(io.Discard)
+	if len(os.Args) > 3 && os.Args[2] == "agentreal" {
+		agentRealMain(os.Args[1], os.Args[3])
+		return
+	}
 	if len(os.Args) > 3 && os.Args[2] == "agentstop" {
 		agentStopMain(os.Args[1], os.Args[3])
 		return
